@@ -1,7 +1,8 @@
 /-
 L12 — symbolic constraint compiler and constraint folding.
 Mirrors `circuit/src/symbolic/{dag,targets,compiler}.rs` and
-`recursion/src/traits/air.rs::eval_folded_circuit`, on top of the L1 expression builder
+`recursion/src/traits/air.rs::eval_folded_circuit` (after the F-C13-1 repair: constraints are
+folded in emission order), on top of the L1 expression builder
 (`Model/Builder.lean`).
 
 Representation choices (see `design_notes/C13.md`):
@@ -409,23 +410,21 @@ def foldExtStep (bdag : Array (BNode K)) (xdag : Array (XNode K)) (T : Cols Nat)
     let m := o.2.2.2.mulAdd st.acc alpha o.1
     { b := m.1, bc := o.2.1, xc := o.2.2.1, acc := m.2, ids := st.ids ++ [o.1] }
 
-/-- `eval_folded_circuit` after `get_symbolic_constraints`: `acc = 0`; every base constraint,
-then every extension constraint, `acc = mul_add(acc, alpha, compiled)`. -/
-def evalFolded (bdag : Array (BNode K)) (xdag : Array (XNode K)) (T : Cols Nat) (alpha : Nat)
-    (baseRoots extRoots : List Nat) (b : BState K) : Option (FoldSt K) :=
-  let z := b.defineConst 0
-  (baseRoots.foldlM (foldBaseStep bdag T alpha) { b := z.1, bc := [], xc := [], acc := z.2, ids := [] }).bind
-    fun st => extRoots.foldlM (foldExtStep bdag xdag T alpha) st
+/-- One iteration of the folding loop of `eval_folded_circuit`: the next constraint in the
+global emission order (`ConstraintLayout`) is taken from the base or the extension stream,
+compiled with the shared caches, and folded: `acc = mul_add(acc, alpha, compiled)`. -/
+def foldStep (bdag : Array (BNode K)) (xdag : Array (XNode K)) (T : Cols Nat) (alpha : Nat)
+    (st : FoldSt K) (p : Bool × Nat) : Option (FoldSt K) :=
+  if p.1 then foldExtStep bdag xdag T alpha st p.2 else foldBaseStep bdag T alpha st p.2
 
-/-- `builder.base_constraints()` / `builder.extension_constraints()`: the emitted constraints
-split by kind, each stream in emission order. -/
-def Emission.baseRoots (em : Emission) : List Nat := em.filterMap fun p => if p.1 then none else some p.2
-def Emission.extRoots (em : Emission) : List Nat := em.filterMap fun p => if p.1 then some p.2 else none
-
-/-- `eval_folded_circuit` for an AIR whose `eval` emits the constraints `em`. -/
+/-- `eval_folded_circuit` for an AIR whose `eval` (+ lookup constraints) emits the constraints
+`em`: `get_symbolic_constraints` splits them into the base and the extension vector,
+`get_constraint_layout` records the global index of each; the loop walks the global indices,
+i.e. the emission order, with `acc = 0` initially and both caches shared over the whole loop. -/
 def evalFoldedAir (bdag : Array (BNode K)) (xdag : Array (XNode K)) (T : Cols Nat) (alpha : Nat)
     (em : Emission) (b : BState K) : Option (FoldSt K) :=
-  evalFolded bdag xdag T alpha em.baseRoots em.extRoots b
+  let z := b.defineConst 0
+  em.foldlM (foldStep bdag xdag T alpha) { b := z.1, bc := [], xc := [], acc := z.2, ids := [] }
 
 end Compile
 
